@@ -384,9 +384,23 @@ class Sandbox:
         """All plausible ways a handler could combine the value with its directories stay inside the sandbox."""
         if text is None:
             return True
+        if not getattr(self, "_in_variant", False):
+            # pydicom / pynetdicom strip padding (and split UI values at backslashes) on the way: every such
+            # derived string must be safe too
+            junk = " \x00\t\r\n"
+            variants = {text.strip(junk), text.lstrip(junk), text.rstrip(junk)}
+            for part in text.split("\\"):
+                variants |= {part, part.strip(junk)}
+            variants.discard(text)
+            self._in_variant = True
+            try:
+                if not all(self.safe_value(v) for v in variants):
+                    return False
+            finally:
+                self._in_variant = False
         cands = []
         for pre in ("", "UN.", "CT.", "UN", "CT"):
-            for d in (self.storage, self.cwd, self.lv):
+            for d in (self.storage, self.cwd):
                 cands.append(os.path.join(d, pre + text))
         t = text.replace("\\", "/")
         for d in (self.storage, self.cwd):
@@ -577,11 +591,15 @@ def _run(case):
             return {"key": "no-assoc", "nontrivial": False, "violations": [], "counters": counters,
                     "inconclusive": "association not established"}
         msg_id = 0
-        for s in case["stores"]:
+        pending = list(case["stores"])
+        retried = set()
+        while pending:
+            s = pending.pop(0)
             msg_id += 1
             inst_t, cls_t = _val_text(s["inst"], sb.sub), _val_text(s["cls"], sb.sub)
             inst_b, cls_b = _val_bytes(s["inst"], sb.sub), _val_bytes(s["cls"], sb.sub)
-            _bump(counters, "stores_generated")
+            if id(s) not in retried:
+                _bump(counters, "stores_generated")
             if not (sb.safe_value(inst_t) and sb.safe_value(cls_t)):
                 _bump(counters, "skipped_target_outside_sandbox")
                 continue
@@ -608,9 +626,16 @@ def _run(case):
                     inconclusive = "file activity although the public API rejected the value %r" % (s,)
                 continue
             if how != "ok" and s["mode"] == "crafted":
-                inconclusive = "%s for store %r" % (how, s)
-                break
-            if how != "ok":
+                # every crafted request is a well-formed DIMSE message, so a response is owed.  A missing one is a
+                # harness/scheduling problem: judge what the monitors saw, then retry once on a fresh association.
+                if id(s) in retried:
+                    inconclusive = "%s (twice) for store %r" % (how, s)
+                    break
+                retried.add(id(s))
+                pending.insert(0, s)
+                _bump(counters, "crafted_no_response_retried")
+                status = how
+            elif how != "ok":
                 # public path: the hostile value made the *command set* unusable for the acceptor (handler not
                 # reached).  The monitors still judge whatever happened; then carry on with a new association.
                 _bump(counters, "public_no_response")
@@ -691,7 +716,15 @@ def _run(case):
                               "storage_dir=<S>=%s :: %s" % (app, s["ts"], s["mode"], inst_t, cls_t,
                                                              "0x%04X" % status if isinstance(status, int) else status,
                                                              sb.storage, "; ".join(details)[:900])})
-            if not assoc.is_established:
+            if how != "ok" or not assoc.is_established:
+                try:
+                    if assoc.is_established:
+                        assoc.abort()
+                except Exception:
+                    pass
+                t0 = time.time()
+                while srv.active_associations and time.time() - t0 < 5:   # let a late handler finish
+                    time.sleep(0.01)
                 _bump(counters, "reassociations")
                 assoc = connect(port)
             if len(samples) < 3 and hostile:
